@@ -35,6 +35,9 @@ def tree(schema, defs):
         raise Unsupported('true schema')
     if '$ref' in schema:
         return tree(defs[schema['$ref'].split('/')[-1]], defs)
+    if 'allOf' in schema and len(schema['allOf']) == 1 and not any(k in schema for k in ('type', 'properties', 'enum')):
+        # schemars wraps a $ref that carries metadata in a one-element allOf
+        return tree(schema['allOf'][0], defs)
     for k in ('oneOf', 'anyOf'):
         if k in schema:
             alts = schema[k]
@@ -594,4 +597,41 @@ def fn_builder(name, mod, T, fields, root, plan):
           '    let _ = v;',
           '    std::mem::forget((built, de));',
           '}']
+    return '\n'.join(L), em
+
+
+def fn_wirecompat(name, TO, TG, root, plan):
+    """C04: x: T (the origin type, obtained by T's own Deserialize from a
+    schema-shaped symbolic document) -> wo = ser(x) -> T' (generated from T's
+    schemars schema) must accept wo, and must write the same document back
+    (modulo absent == null for members), which T then reads as x again."""
+    em = build_prelude(root, plan)
+    L = [f'pub fn {name}<S: Src>(s: &mut S) {{', '    let mut doc = Doc::new();'] + em.lines
+    L += [
+        '    assert!(!doc.overflow, "harness: document arena too small");',
+        '    #[cfg(not(kani))]',
+        '    s.note("document", &crate::render::to_json(&doc));',
+        f'    let x: {TO} = match from_doc(&doc) {{ Ok(x) => x, Err(_) => return }};',
+        '    let mut wo = Doc::new();',
+        '    let ro = to_doc(&x, &mut wo, Some(&doc));',
+        '    assert!(ro.is_ok() && !wo.overflow && !wo.len_mismatch, "harness: the origin type does not serialize into the document model");',
+        '    #[cfg(not(kani))]',
+        '    s.note("serialization of the origin value", &crate::render::to_json(&wo));',
+        f'    let y: Result<{TG}, E> = from_doc(&wo);',
+        '    #[cfg(not(kani))]',
+        '    { let text = crate::render::to_json(&wo); s.note("generated type: deserialize.is_ok", &y.is_ok());',
+        f'      s.note("generated type: serde_json::from_str.is_ok", &serde_json::from_str::<{TG}>(&text).is_ok()); }}',
+        '    assert!(y.is_ok(), "C04: the generated type rejects the serialization of a value of the original type");',
+        '    if let Ok(y) = &y {',
+        '        let mut wg = Doc::new();',
+        '        let rg = to_doc(y, &mut wg, Some(&wo));',
+        '        #[cfg(not(kani))]',
+        '        s.note("serialization by the generated type", &crate::render::to_json(&wg));',
+        '        assert!(rg.is_ok() && !wg.overflow && !wg.len_mismatch && same_doc_relaxed(&wo, &wg), "C04: the generated type writes a document the original type does not read back as the same value");',
+        '        crate::cover!(s, true, "exchanged");',
+        '    }',
+        '    std::mem::forget(x);',
+        '    std::mem::forget(y);',
+        '}',
+    ]
     return '\n'.join(L), em
